@@ -136,7 +136,32 @@ def do_case(case):
             saved = sbcmod.PeriodicFinder
             sbcmod.PeriodicFinder = make_finder(log)
             try:
-                res = guarded(lambda: SBC().get_clusters(at, seed=int(case.get("seed", 7))))
+                sbc = SBC()
+                if case["id"] % 2 == 1:
+                    # history: the SBC object of the workflow has clustered ANOTHER structure in the same box before
+                    # (same atoms translated and in another order); the answer for `at` must not depend on it
+                    import random as _random
+                    r_ = _random.Random(case["id"])
+                    order = list(range(len(at)))
+                    r_.shuffle(order)
+                    oth = at[order]
+                    oth.set_positions(oth.get_positions() + np.array([r_.uniform(0.4, 1.9) for _ in range(3)]))
+                    guarded(lambda: sbc.get_clusters(oth, seed=int(case.get("seed", 7))))
+                    log["calls"][:] = []
+                    log["keep"][:] = []
+                    log["cur"] = None
+                    out["history"] = "same SBC object clustered a translated, re-ordered copy first"
+                res = guarded(lambda: sbc.get_clusters(at, seed=int(case.get("seed", 7))))
+                if "history" in out:
+                    keep = (list(log["calls"]), list(log["keep"]), log["cur"])
+                    fresh = guarded(lambda: SBC().get_clusters(at, seed=int(case.get("seed", 7))))
+                    log["calls"][:], log["keep"][:], log["cur"] = keep[0], keep[1], keep[2]
+
+                    def canon(x):
+                        return ("error", x["error"]["type"]) if isinstance(x, dict) else sorted(sorted(int(i) for i in c.indices) for c in x)
+                    out["history_same"] = bool(canon(res) == canon(fresh))
+                    if not out["history_same"]:
+                        out["history_detail"] = {"reused": str(canon(res))[:300], "fresh": str(canon(fresh))[:300]}
             finally:
                 sbcmod.PeriodicFinder = saved
             out["n"] = len(at)
